@@ -51,7 +51,7 @@ type c06Case struct {
 var c06TreeCfg = h.TreeCfg{
 	MaxEntries: 12, MaxDepth: 3, Names: []string{"a", "b", "ab", "a-b", "a.b", "c", "a0", "d", "é", "x y"},
 	Kinds:  []h.Kind{h.KFile, h.KFile, h.KFile, h.KFile, h.KSymlink, h.KFifo, h.KChar, h.KSocket},
-	Xattrs: true, Hardlinks: true, BigFiles: true,
+	Xattrs: true, Hardlinks: true, BigFiles: true, BadUTF8: true,
 }
 
 func genC06(t *rapid.T) *c06Case {
